@@ -331,8 +331,33 @@ def pointer_range(cx):
         cx.check('C02.G4', bool(re.search(r'^<u16 as BinEncodable>::emit\(bitor\(49152,BinEncoder::get_label_pointer\(', s.term)), em.path, s.key(), 'pointer=0xC000|stored-offset', s.term[:120], s.loc)
 
 
+def ecs_bounds(cx):
+    """G5: what the decoder accepts the encoder can write (second clause of C02: a byte string that decodes re-encodes).  For the
+    EDNS client-subnet option both directions bound the number of address octets by the size of the address FAMILY the option names
+    (4 for IPv4, 16 for IPv6; RFC 7871 6): ClientSubnet::read yields an address of family F only under addr_len <= octets(F), the
+    same bound ClientSubnet::emit enforces."""
+    rd = cx.fn('C02.G5', r"<hickory_proto::rr::rdata::opt::ClientSubnet as hickory_proto::serialize::binary::BinDecodable<'a>>::read")
+    em = cx.fn('C02.G5', r'<hickory_proto::rr::rdata::opt::ClientSubnet as hickory_proto::serialize::binary::BinEncodable>::emit')
+    if not rd or not em:
+        return
+    LEN = r'cast<usize>\(addwithoverflow\(div\(Restrict::unverified\(try\(BinDecoder::read_u8\(arg1\)\)@Continue\.0\),8\),phi\((1\|0|0\|1)\)\)\.0\)'
+    oks = cx.returns(rd, r'^Result::Ok\(ClientSubnet\(')
+    cx.check('C02.G5', len(oks) == 2, rd.path, 'returns', 'one-accepting-return-per-family', str(len(oks)))
+    for fam, ty, code in (('IPv4', 'Ipv4Addr', 1), ('IPv6', 'Ipv6Addr', 2)):
+        ss = [s for s in oks if re.search(rf'^Result::Ok\(ClientSubnet\(into<IpAddr>\({ty}::', s.term)]
+        cx.guard('C02.G5', ss, {
+            f'family-code-{code}': rf'^eq\({code},Restrict::unverified\(try\(BinDecoder::read_u16\(arg1\)\)@Continue\.0\)\)$|^in\(Restrict::unverified\(try\(BinDecoder::read_u16\(arg1\)\)@Continue\.0\),{code}\)$',
+            f'address-octets<=size-of-{fam}': rf'^le\({LEN},(slice::len\({ty}::octets\(const:{ty}::UNSPECIFIED\)\)|{4 if code == 1 else 16})\)$'}, expect=1, fn=rd)
+    sl = cx.calls(em, r'BinEncoder<.*>::emit_slice$|BinEncoder::emit_slice$')
+    cx.check('C02.G5', len(sl) == 2, em.path, 'calls', 'one-address-write-per-family', str(len(sl)))
+    for s in sl:
+        cx.check('C02.G5', cx.has_guard(s, r'^le\(cast<usize>\(ClientSubnet::addr_len\(arg1\)\),(slice::len\(Ipv[46]Addr::octets\(.*\)\)|4|16)\)$'), em.path, s.key(),
+                 'encoder-bounds-address-octets-by-family-size', s.term[:120], s.loc)
+
+
 def run(cx):
     pure_codec(cx)
+    ecs_bounds(cx)
     pointer_range(cx)
     variant_table(cx, 'C02.T1', 'RData', P + 'rr::record_data::RData::read', r'^<hickory_proto::rr::record_data::RData as hickory_proto::serialize::binary::BinEncodable>::emit$',
                   P + 'rr::record_data::RData::record_type', 26)
